@@ -12,7 +12,9 @@ EXPLANATION = (
     'R14.2: the allocating seal = copy of the plaintext + in-place seal on buf[..len] + tag appended at [len..len+Nt); '
     'the allocating open = split at len-Nt + in-place open on the copy of the first part with the tag copied from the '
     'second part, result = that buffer. Given R14.1/R14.2 equivalence with the composed calls follows for all inputs '
-    'because the composed functions are functions of their arguments (C18). Not decided: nothing behavioural beyond '
+    'because the composed functions are functions of their arguments (C18). R14.3: every single-shot, setup and context '
+    'body generic over A/Kdf/Kem mentions no concrete Aead/Kdf/Kem implementor (a block-level `type Kdf = …` alias would '
+    'silently re-instantiate the unchanged setup call with another suite). Not decided: nothing behavioural beyond '
     'that composition argument.')
 TRUSTED = ['rustc MIR construction', 'core::ops::Try / FromResidual for Result (identity From<T> for T)',
            'alloc::vec::from_elem / slice::to_vec / copy_from_slice / split_at semantics']
@@ -284,6 +286,10 @@ def run(ctx):
     for a, setups in ss:
         check_single_shot(rep, facts, a, setups)
     run_alloc_forms(rep, facts, alloc)
+    # R14.3: the composed and the single-shot form run the *same* suite: single-shot and context bodies are parametric
+    from .common import check_suite_parametric
+    check_suite_parametric(rep, facts, 'R14.3', scope=lambda b: b.key.startswith(('single_shot::', 'setup::', 'aead::AeadCtx')),
+                           floor=8, what='single-shot / setup / context bodies generic over the suite')
     rep.bodies_analysed = len(facts.body_list)
     rep.call_sites = sum(len(get_an(facts, b.key).calls()) for b in facts.body_list)
 
